@@ -185,6 +185,71 @@ async def check_case(ctx, case):
                 return
 
 
+async def check_with_packages(ctx, case):
+    """case: {"parts", "short": [[ind, abbreviated ast | None]], "table", "s", "plain": [cond text | None]} - the parts are WRITTEN with packages
+    (each part possibly several, at different nesting depths); after resolution every part must still decide with its own condition expression"""
+    parts, table, s, plain = case["parts"], case["table"], case["s"], case["plain"]
+    rng = ctx.case_rng(case)
+    ctx.set_case("packages", case)
+    ctx.count("ahb_expressions_written_with_packages")
+    rcs = []
+    for _ind, cond in parts:
+        if cond is not None:
+            rcs += [k for k in G.keys_of(cond, "rc") if k not in rcs]
+    fcs = sorted({k for _i, c in parts if c is not None for k in G.keys_of(c, "fc")})
+    for asg in H.assignments_for(rcs, rng, full_up_to=3, sample=12):
+        fa = {k: rng.random() < 0.5 for k in fcs}
+        world = E.World("c09", rc=asg, fc=fa, fc_msg={k: f"E{k}" for k in fcs}, pkg=table)
+        wcase = dict(case, assignments=[asg])
+
+        async def go():
+            E.set_world(world)
+            text_to_be_evaluated_by_format_constraint.set("text")
+            tree = await parse_expression_including_unresolved_subexpressions(s, resolve_packages=True)
+            return await evaluate_ahb_expression_tree(tree)
+
+        out = await sched.run_under(sched.Sched(sched.RandomChooser(rng)) if rng.random() < 0.5 else None, go)
+        ctx.evaluation()
+        if out[0] != "ok":
+            ctx.violation(f"evaluation-raises-{type(out[1]).__name__}", f"{s!r} with packages {table} under {asg} {describe(out)[:300]}", case=wcase)
+            return
+        outcomes = [True if cond is None else logic.OUTCOME[logic.ref_eval(cond, asg)][0] for _ind, cond in parts]
+        chosen = next((i for i, f in enumerate(outcomes) if f), len(parts) - 1)
+        res = out[1]
+        if res.requirement_indicator is not NORMALISED[parts[chosen][0]]:
+            ctx.violation("selection", f"{s!r} with packages {table} under {asg}: reported indicator {res.requirement_indicator!r}, expected part {chosen + 1} ({parts[chosen][0]}); parts fulfilled: {outcomes}", case=wcase)
+            return
+        if parts[chosen][1] is None:
+            continue
+        own = await H.async_requirement(plain[chosen], E.World("c09", rc=asg, fc=fa, fc_msg={k: f"E{k}" for k in fcs}))
+        if own[0] != "ok":
+            continue
+        rres = res.requirement_constraint_evaluation_result
+        got = (rres.requirement_constraints_fulfilled, rres.hints, rres.format_constraints_expression)
+        expect = (own[1].requirement_constraints_fulfilled, own[1].hints, own[1].format_constraints_expression)
+        if got != expect:
+            ctx.violation("part-outcome", f"{s!r} with packages {table} under {asg}: selected part {chosen + 1} reports (fulfilled, hints, fc expression) = {got}; its own condition expression with the packages written out ({plain[chosen]!r}) gives {expect}", case=wcase)
+            return
+
+
+def gen_package_case(rng, cond):
+    parts = GA.gen_parts(rng, cond, max_parts=3, p_bare=0.0, p_prefix=0.15, p_trailing_bare=0.2)
+    table, short, plain = {}, [], []
+    names = [f"{n}P" for n in (11, 12, 13, 14, 15, 16)]
+    for ind, c in parts:
+        if c is None:
+            short.append([ind, None])
+            plain.append(None)
+            continue
+        free = [n for n in names if n not in table]
+        c2, t = G.abbreviate(c, rng, free, max_packages=2) if free and rng.random() < 0.8 else (c, {})
+        table.update(t)
+        short.append([ind, c2])
+        plain.append(G.render(c, rng, G.EXACT))
+    s = GA.render_parts(short, rng, style=G.EXACT)
+    return {"parts": parts, "table": table, "s": s, "plain": plain}
+
+
 def cond_factory(rng):
     pools = G.Pools(rc=["1", "2", "3", "4"], hint=["501", "502"], fc=["901", "902", "903"])
 
@@ -220,8 +285,15 @@ async def run(ctx):
         await check_case(ctx, case)
         if i % 120 == 0:
             ctx.sample({"s": case["s"], "parts": [[a, (t or "").strip()] for a, t in zip(case["spellings"], case["conds"])]}, cls="ahb")
+        if i % 5 == 0:
+            pcase = gen_package_case(rng, lambda: G.gen_valid(rng, rng.randint(1, 3), G.Pools(rc=["1", "2", "3", "4"], hint=["501", "502"], fc=["901", "902", "903"]), max_leaves=7, invalid_pred=logic.structurally_invalid))
+            if pcase["table"]:
+                await check_with_packages(ctx, pcase)
 
 
 async def replay(ctx, phase, case):
     E.install()
-    await check_case(ctx, case)
+    if phase == "packages":
+        await check_with_packages(ctx, case)
+    else:
+        await check_case(ctx, case)
